@@ -1,4 +1,5 @@
 """C17 - no request reaches request processing before the client's identity is established."""
+import copy
 import itertools
 
 import sqlalchemy
@@ -14,7 +15,10 @@ AUTH_FAIL = E.ResultReason.AUTHENTICATION_NOT_SUCCESSFUL.value
 CERTS = [('absent', None, None), ('cn0', (), 'client'), ('cn1', ('alice',), 'client'),
          ('cn2', ('alice', 'mallory'), 'client'),
          ('cn1-noeku', ('alice',), None), ('cn1-server', ('alice',), 'server'), ('cn1-both', ('alice',), 'both'),
-         ('cn0-noeku', (), None), ('cn2-both', ('alice', 'mallory'), 'both'), ('cn2-noeku', ('alice', 'mallory'), None)]
+         ('cn0-noeku', (), None), ('cn2-both', ('alice', 'mallory'), 'both'), ('cn2-noeku', ('alice', 'mallory'), None),
+         # two common names inside one multi-valued RDN (CN=alice+CN=mallory), and one plain plus one such RDN
+         ('cn2-one-rdn', ('+alice', '+mallory'), 'client'), ('cn3-mixed-rdn', ('alice', '+bob', '+mallory'), 'client'),
+         ('cn1-in-rdn', ('+alice',), 'client')]
 BEHAVIOURS = ['vouch', 'vouch-nogroups', 'user404', 'groups404', 'user403', 'user500', 'groups403', 'groups500',
               'unreachable', 'nonjson', 'nourl']
 FLIP = {'calls': 0}      # state of the 'flip' host: vouches (groups g1,g2) for the first request, then forgets the user
@@ -119,6 +123,7 @@ def predict(cert_names, eku, tls_auth, blocks):
     """(enter: True/False/None, identity)"""
     if cert_names is None:
         return False, None
+    cert_names = tuple(n.lstrip('+') for n in cert_names)     # '+name' = inside a multi-valued RDN: a common name all the same
     if tls_auth:
         if eku is None or eku == 'server':
             return False, None
@@ -207,8 +212,15 @@ def run_case(ctx, case):
                         # the same request two or three times on one connection: every one of them is subject
                         # to the identity conditions, not only the first
                         repeat = 1 + (hash((cname, clabel, tls_auth, rlabel)) % 3)
+                        # the settings list as the server hands it to a session right after start-up: a fresh copy per
+                        # cell, so that whatever a session does to it cannot hide in the cells that follow
+                        settings = copy.deepcopy(blocks)
                         sent, esc = rig.session_roundtrip(srv.engine, req * repeat, der, enable_tls_client_auth=tls_auth,
-                                                          auth_settings=blocks)
+                                                          auth_settings=settings)
+                        if settings != blocks:
+                            ctx.count('settings_list_changed_by_a_session')
+                            ctx.observe('a session changed the shared auth settings list: %r -> %r' % (
+                                [b_[0] for b_ in blocks], [b_[0] for b_ in settings]))
                         after = srv.dump()
                         ctx.ev()
                         ctx.count('cells_checked')
